@@ -9,17 +9,9 @@ set_option linter.unusedSimpArgs false
 
 /-! ### generic per-step facts -/
 
-theorem creq_pos_stepA (c : Cfg) (a a' : StA) (e : EvA) (h : stepA c a e = some a')
-    (hp : ∀ k, a.creq k = true → 0 < k) : ∀ k, a'.creq k = true → 0 < k := by
-  cases e <;> simp only [stepA] at h <;> (repeat' split at h) <;> cases h <;>
-    (try unfold beginRun) <;> (repeat' split) <;> simp only [release, startJobs, setAt] <;>
-    grind [CoreB.mem_children]
-
-theorem creq_pos_stepB (c : Cfg) (st st' : StB) (e : EvB) (h : stepB c st e = some st')
-    (hp : ∀ k, st.a.creq k = true → 0 < k) : ∀ k, st'.a.creq k = true → 0 < k := by
-  rcases stepB_refines c st st' e h with heq | ⟨ea, hea⟩
-  · rw [heq]; exact hp
-  · exact creq_pos_stepA c _ _ ea hea hp
+/- (`creq k → 0 < k` — "`cancel()` is never called on the top-level task" — was an invariant here, used to discharge the
+   guard `0 < s` of `cancelArrive s`.  With `extCancel` it is false, and `cancelArrive` has lost that guard: the
+   invariant and its two step lemmas `creq_pos_stepA/B` are gone; nothing else used them.) -/
 
 theorem done_stable_stepB (c : Cfg) (st st' : StB) (e : EvB) (h : stepB c st e = some st') (k : Nat) (r : Res)
     (hd : st.a.ph k = .done r) : st'.a.ph k = .done r := by
@@ -136,8 +128,6 @@ theorem notStuck_step (c : Cfg) (st st' : StB) (e : EvB) (hA : InvA c st.a) (hB 
 /-! ### the additional invariant -/
 
 structure InvP (c : Cfg) (st : StB) : Prop where
-  /-- `cancel()` is only ever called on the task of a job of some scheduler: never on the top-level run -/
-  creqPos : ∀ k, st.a.creq k = true → 0 < k
   /-- converse of `InvB.runPh`: a scheduler whose task is running is inside its `co_run` -/
   runPc : ∀ s, c.isSched s = true → st.a.ph s = .running → st.pcB s ≠ .notBegun ∧ st.pcB s ≠ .over
   /-- a run that left its loop for reason `critical` has a critical job that raised -/
@@ -149,8 +139,7 @@ structure InvP (c : Cfg) (st : StB) : Prop where
   notStuck : NotStuck c st
 
 theorem invP_init (c : Cfg) : InvP c StB.init := by
-  refine ⟨?_, ?_, ?_, ?_⟩
-  · intro k h; simp [StB.init, StA.init] at h
+  refine ⟨?_, ?_, ?_⟩
   · intro s _ h; simp [StB.init, StA.init] at h
   · intro s h; simp [StB.init, PcB.exitOf] at h
   · intro s h; simp [StB.init] at h
@@ -166,7 +155,7 @@ theorem critIn_true {c : Cfg} {a : StA} {D : List Nat} (h : critIn c a D = true)
 
 theorem invP_step (c : Cfg) (st st' : StB) (e : EvB) (hA : InvA c st.a) (hB : InvB c st) (hP : InvP c st)
     (h : stepB c st e = some st') : InvP c st' := by
-  refine ⟨creq_pos_stepB c st st' e h hP.creqPos, runPc_step c st st' e h hP.runPc, ?_,
+  refine ⟨runPc_step c st st' e h hP.runPc, ?_,
     notStuck_step c st st' e hA hB h hP.notStuck⟩
   intro s hx
   rcases crit_step c st st' e h s hx with h1 | ⟨hl, D, hD, hc⟩
